@@ -127,6 +127,16 @@ func (mockTransport) RoundTrip(req *http.Request) (*http.Response, error) {
 		return mk(200, "application/json", `{"a": 1, "A": 2, "Name": "upper", "name": "lower"}`), nil
 	case "array":
 		return mk(200, "application/json", `[1, 2, {"three": 3}]`), nil
+	case "null":
+		return mk(200, "application/json", `null`), nil
+	case "scalar":
+		return mk(200, "application/json", `"just text"`), nil
+	case "zero":
+		return mk(200, "application/json", `0`), nil
+	case "emptyobj":
+		return mk(200, "application/json", `{}`), nil
+	case "emptyarr":
+		return mk(200, "application/json", `[]`), nil
 	case "text":
 		return mk(200, "text/plain", "hello world"), nil
 	case "empty":
